@@ -4,7 +4,7 @@ from rules import lib_order
 
 
 def run(ctx):
-    fbs = ctx.facts(['K17', 'K20', 'K20n'], kinds=('lib', 'probe'))
+    fbs = ctx.facts(['K17', 'K20', 'K20n'], kinds=('lib', 'probe'), tests=r'/test/')
     rw = ctx.rule('R-WORD', 'every atomic operation on a hand-off word is one of the roles its protocol admits '
                   '(classified by word, operation kind and class of the written value)', minimum=40)
     ro = ctx.rule('R-ORDER', 'the resolved memory order of each site is at least its role minimum in the lattice '
